@@ -788,9 +788,33 @@ def from_initlist(ex, st, d, ct, items):
     raise ExtractionError(f'{ex.unit}: initializer list for {ct.name}')
 
 
+def container_leaves(ctname):
+    """leaf names of the element type of std::vector<T>/queue<T>"""
+    s_ = strip_quals(ctname)
+    i = s_.find('<')
+    inner = s_[i + 1:s_.rfind('>')] if i >= 0 else ''
+    # first template argument
+    depth, arg = 0, ''
+    for ch in inner:
+        if ch == '<':
+            depth += 1
+        elif ch == '>':
+            depth -= 1
+        elif ch == ',' and depth == 0:
+            break
+        arg += ch
+    pod = pod_of(arg.strip())
+    if pod:
+        return [(lf, parse_type_str(ts)) for lf, ts in POD[pod].items()]
+    t = parse_type_str(arg.strip())
+    return [('', t if t.kind in ('int', 'float') else FLOAT)]
+
+
 def copy_container(ex, st, d, v):
     """local container initialised from another one: by-value copy into a fresh region"""
     name = f'local:{d.get("name")}'
+    for lf, lct in container_leaves(v.cls):
+        st.array(v.name, lf, lct)          # materialise the source contents that are being copied
     for key in list(st.arr):
         if key[0] == v.name:
             st.arr[(name, key[1])] = st.arr[key]
